@@ -204,6 +204,7 @@ func c04Run(c *Ctx) {
 			{"L1", GenOpts{OneGate: true, LeafSet: 2, RichEnv: true}, 1, coveringFlags8(ns)},
 		}
 	}
+	layers = append(layers, sweepLayer{"scale", GenOpts{Scale: true, ScaleThorough: c.Thorough(), RichEnv: true}, 0, []Flags{{}, {N: true, B: true, I: true, W: true}, zsets[0]}})
 	report := func(root *LNode, line, desc string, fl Flags, out string, ok bool, replay map[string]any) {
 		diffs := c04Eval(root, fl, out, ok)
 		if len(diffs) == 0 {
